@@ -41,6 +41,8 @@ def main():
         how = 'caught' if m.get('caught') else '**missed**'
         if m.get('caught') and earlier and not first:
             how = 'caught after strengthening'
+        elif m.get('caught') and m.get('strengthened_before_first_evaluation'):
+            how = 'caught (check strengthened after reading the description, before the first run)'
         rows.append((m['name'], m['property'], title(d), how, conds(m.get('check', {})) or m.get('caught_by', ''),
                      m.get('check', {}).get('wall_s', '')))
     print('| change | property | what it does (from the author\'s notes) | result | conditions that reported it | wall s |')
@@ -50,8 +52,10 @@ def main():
     n = len(rows)
     c = sum(1 for r in rows if r[3].startswith('caught'))
     f = sum(1 for r in rows if r[3] == 'caught')
-    print(f'\n{n} changes; {c} caught by the committed checks, of which {f} on first evaluation and {c - f} only after a '
-          f'check was strengthened; {n - c} missed.')
+    g = sum(1 for r in rows if r[3].startswith('caught (check'))
+    print(f'\n{n} changes; {c} caught by the committed checks, of which {f} by the check as it stood, {g} by a check '
+          f'strengthened after reading the description but before its first run, and {c - f - g} only after a recorded miss; '
+          f'{n - c} missed.')
 
 
 if __name__ == '__main__':
